@@ -4,13 +4,13 @@ PROP = dict(
     title="An accepted match always has a matching arm; reported gaps are real",
     lean_module="AbraProofs.Properties.C12",
     required_theorems=["C12_exhaustive_sound", "C12_witness_sound", "C12_nonexhaustive_real",
-                       "C12_fromAst_meaning", "C12_exhaustive_sound_dpat", "C12_witness_sound_dpat", "C12_terminates",
+                       "C12_fromAst_meaning", "C12_exhaustive_sound_dpat", "C12_witness_sound_dpat", "C12_terminates", "C12_terminates_matrix", "C12_nonexhaustive_real_dpat",
                        "C12_let_accepted_irrefutable", "C12_let_rejected_refutable", "C12_let_terminates"],
     harness_bin="c12",
     mismatch_is_violation=True,
-    rule="(scrutinee type, arm list) pairs over the bounded universe of harness/src/patuniv.rs (38 scrutinee types to "
-         "depth 2 over bool/void/int/float/string, 5 structs, 7 enums incl. void payloads, named and positional "
-         "multi-field variants, a recursive enum; literals from small sets incl. alternative float spellings; 1-6 arms; "
+    rule="(scrutinee type, arm list) pairs over the bounded universe of harness/src/patuniv.rs (48 scrutinee types plus 2 whose values need the D46 constructor, to "
+         "depth 2 over bool/void/int/float/string, 6 structs incl. one without fields, 13 enums incl. void payloads, named and positional "
+         "multi-field variants, a recursive enum, a generic enum used at bool, three single-variant enums; literals from small sets incl. alternative float spellings and adjacent doubles; 0-6 arms; "
          "or-patterns, named fields in shuffled order, qualified variants): hand-written regression shapes, then all "
          "arm lists of length <= 2 over the depth-1 pattern pool of 13 small types (quick: 18 sampled per type), then "
          "1500 (quick) / 40000 (thorough) seeded random arm lists; each program is checked by the real checker through "
@@ -29,7 +29,7 @@ PROP = dict(
         "all types of the enum environment are inhabited (hypothesis Inhabited' of the witness theorems)",
         "the model's int and float value spaces are unbounded (Int / Nat bits): a witness value for an int/float column "
         "is some literal different from all literals of that column, which exists in 64 bits whenever a column lists fewer than 2^64 distinct literals",
-        "float literal constructors are compared by parsed bit pattern (repaired behaviour of D15); a positional sub-pattern on a void payload is erased (repaired behaviour of D31)",
+        "float literal constructors are compared by parsed bit pattern (the code since D15, f56a816); a positional sub-pattern on a void payload is erased (the code since D31, 1e10ab9); a missing variant's witness carries one payload wildcard (643396b); let / var / for patterns are checked as a one-arm match (D96, e292b84)",
     ],
     design_ref="DESIGN.md §6 C12",
     level_text="Theorems for every enum environment with inhabited types, every scrutinee type, every well-typed arm list (and every fuel "
@@ -40,7 +40,7 @@ PROP = dict(
                "The model is tied to /repo on every run by checking generated match programs with the real checker and diffing the witness lists, "
                "and the property is checked directly by brute force over all values.",
     level_note="Termination is proved (C12_terminates: a measure that strictly decreases at every recursive call; the driver runs with that fuel), so the theorems are unconditional in the fuel. "
-               "Int/float value spaces are unbounded in the model (see assumptions). The run-time half of the statement (the compiled match takes a matching arm) is C14's.",
+               "Int/float value spaces are unbounded in the model (see assumptions). The run-time half of the statement (the compiled match takes a matching arm) is proved in C14; here it is checked by the run-time stream of the harness only.",
     technique="Lean 4 theorems (Maranget-style induction over the matrix recursion) over a hand-written model + differential correspondence against the real checker + brute-force oracle",
     timeout=1500,
 )
